@@ -562,6 +562,10 @@ theorem rstep_rel (p : RPair) (s : State) (h : RelS p s) (op : Op) (ha : isArray
         exact Or.inl ⟨r, _, by simp only [c, if_true], by simp only [AState.back, c', if_false, AState.get, this] <;> rfl, hr⟩
       · have c' : a.size = 0 := by omega
         exact Or.inr ⟨by simp only [c, if_false], by simp only [AState.back, c', if_true]⟩)
+  case aeq v w =>
+    by_cases hv : v < 2 ∧ w < 2
+    · left; exact ⟨p, _, by simp only [rstep, hv, and_self, if_true], by simp only [step, hv, and_self, if_true] <;> rfl, h⟩
+    · right; simp [rstep, step, hv]
 
 theorem rrun_rel (ops : List Op) : ∀ (p : RPair) (s : State), RelS p s → (∀ op ∈ ops, isArrayOp op = true) →
     RelS (rrun p ops) (run s ops) := by
